@@ -9,7 +9,6 @@ sys.path.insert(0, os.path.join(VERIF, 'harness', 'E2'))
 import e2lib
 
 ESHUTDOWN, ETIMEDOUT = 108, 110
-PENDING = os.path.join(VERIF, 'checks', 'C08_pending_findings.json')
 F1_WITNESS = 'P wp 0 4 | create 1 0;create 2 0;usleep 10;interrupt 2 108;usleep 3000;wp_destroy 0 1 | wp_join 0 | wp_call 0 1 100;nop | wp_tt | wp_tt'
 
 
@@ -81,10 +80,11 @@ def gen_prog(rng, big=False):
         t0 += [('yield', [])] * rng.randint(2, 6)
     else:
         t0.append(('usleep', [rng.choice([1, 50, 100, 500, 1024, 3000, 5000])]))
-    # EINTR-class interrupts (semaphore::wait retries them): to callers, dispatchers, sleeping task bodies' threads
-    if rng.random() < .25:
-        for _ in range(rng.randint(1, 3)):
-            t0.append(('interrupt', [rng.randrange(1, n), rng.choice([4, 4, 11, 125])]))
+    # interrupts to callers, dispatchers, senders, sleeping task bodies' threads: EINTR-class (semaphore::wait retries them)
+    # and ESHUTDOWN / ETIMEDOUT (semaphore::wait gives up: finding F37, fixed — do_call must wait again)
+    if rng.random() < .4:
+        for _ in range(rng.randint(1, 4)):
+            t0.append(('interrupt', [rng.randrange(1, n), rng.choice([4, 11, 125, 108, 108, 110])]))
             if rng.random() < .5: t0.append(('usleep', [rng.choice(pal)]))
     threads[0] = t0
     # bodies that sleep need the quiescence gate (q = 1): E2's virtual time stands still while the destructor spins
@@ -178,7 +178,7 @@ class Check(DiffCheck):
     case_timeout = 900
     rule = ('E2 programs: one WorkPool(0,0,0,mode,ring) with mode in {-1,0,1,2,3} and ring in {1..16}; 1-2 photon threads join the pool '
             '(join_current_vcpu_into_workpool), 1-3 submitters issue call()/async_call() bursts with bodies that sleep/yield, the main thread '
-            'destroys the pool at a random moment (often right after the last submit), EINTR-class interrupts. Non-trivial = more tasks than '
+            'destroys the pool at a random moment (often right after the last submit), EINTR-class and ESHUTDOWN/ETIMEDOUT interrupts of callers/dispatchers/senders. Non-trivial = more tasks than '
             'ring slots, or a task body that blocks.')
     partial_note = ('PARTIAL by design: the cross-OS-thread interleavings (submitters on other vCPUs / plain OS threads, several worker vCPUs, the '
                     'destructor racing with them) are proved on the model (coq/C08/C08_Model.v) and only SAMPLED on the implementation by the '
@@ -195,7 +195,7 @@ class Check(DiffCheck):
         corpus = os.path.join(VERIF, 'replay', 'corpus', 'C08.cases')
         if os.path.exists(corpus):
             cases += [l.strip() for l in open(corpus) if l.strip() and not l.startswith('#')]
-        n = 300 if tier == 'quick' else 3000
+        n = 300 if tier == 'quick' else 2000
         for k in range(n):
             cases.append(gen_prog(rng, big=(k % 5 == 4)))
         return list(dict.fromkeys(cases))
@@ -257,7 +257,8 @@ class Check(DiffCheck):
         tmp = ctx['tmp']
         # (a) the refutation witnesses and a sample run through the EXTRACTED step function of C08_Model
         a_cases = [
-            ('A 0 4 1 0 1 | submit:1 intr:0', 'tasks=0.0.0.0.1 badcopy=0 uaf=0 badcount=0 ringuaf=0 destroyed=0'),
+            ('A 0 4 1 0 1 | submit:1 intr:0', 'tasks=0.0.0.0.1 badcopy=0 uaf=0 badcount=0 ringuaf=0 destroyed=0'),      # pre-fix code
+            ('A 0 4 1 0 0 | submit:1 intr:0', 'tasks=0.0.0.0.0 badcopy=0 uaf=0 badcount=0 ringuaf=0 destroyed=0'),      # fixed code: waits again
             ('A 0 4 1 0 1 | submit:1 intr:0 recv:0 dispatch:0 yieldto:0 copy:0 start:0', 'tasks=1.0.0.0.1 badcopy=0 uaf=1 badcount=0 ringuaf=0 destroyed=0'),
             ('A 0 4 0 0 0 | submit:0 dbegin dfinal', 'tasks=0.0.0.0.0 badcopy=0 uaf=0 badcount=0 ringuaf=0 destroyed=1'),
             ('A 0 4 1 0 0 | submit:1 recv:0 dispatch:0 recv:0', 'REJECT@3'),
@@ -271,24 +272,18 @@ class Check(DiffCheck):
                 if (g or '').strip() != want:
                     out.append(dict(kind='correspondence', message='extracted C08_Model.step disagrees with the proved witness: got %r want %r' % (g, want), case=c))
             cov['model_A_witness_replays'] = len(a_cases)
-        # (b) finding C08-F1: ESHUTDOWN / ETIMEDOUT interrupt to a caller blocked in call()
+        # (b) finding F37 (fixed by /repo f4b1a02): ESHUTDOWN / ETIMEDOUT interrupt to a caller blocked in call()
         if ctx.get('impl_exe'):
-            wit = [F1_WITNESS, F1_WITNESS.replace('interrupt 2 108', 'interrupt 2 110')]
-            got = run_cases(ctx['impl_exe'], wit, tmp, 'f1', nshards=1, timeout=900, env=self.impl_env())
+            wit = [F1_WITNESS, F1_WITNESS.replace('interrupt 2 108', 'interrupt 2 110'),
+                   F1_WITNESS.replace('wp 0 4', 'wp -1 4'), F1_WITNESS.replace('wp 0 4', 'wp 2 4').replace('wp_tt', 'wp_pt')]
+            got = run_cases(ctx['impl_exe'], wit, tmp, 'f37', nshards=1, timeout=900, env=self.impl_env())
             repro = [(c, g) for c, g in zip(wit, got) if analyse(c, (g or '').strip())]
-            listed = {f.get('status') for f in load_known_findings(self.id) if 'ESHUTDOWN' in f.get('what', '') or f.get('id') in ('C08-F1', 'F20')}
-            pending = os.path.exists(PENDING)
-            cov['finding_C08_F1_reproduced'] = bool(repro)
-            if repro:
+            cov['finding_F37_witnesses_pass'] = not repro
+            if repro and not any(f.get('status') == 'known' and 'ESHUTDOWN' in f.get('what', '') for f in load_known_findings(self.id)):
                 c, g = repro[0]
-                msg = ('call() returned before its task finished: the caller was interrupted with ESHUTDOWN/ETIMEDOUT (semaphore::wait gives up, '
-                       'do_call ignores suspend()): ' + (analyse(c, (g or '').strip()) or ''))
-                if 'known' in listed:
-                    pass                                     # DiffCheck.main prints the KNOWN-FINDING line of a listed finding
-                elif pending and 'fixed' not in listed:
-                    print('KNOWN-FINDING: property=C08 (pending listing, checks/C08_pending_findings.json) ' + msg[:300])
-                else:
-                    out.append(dict(kind='oracle', message=msg, case=c, impl_out=g))
+                out.append(dict(kind='oracle', case=c, impl_out=g,
+                                message='call() returned before its task finished: the caller was interrupted with ESHUTDOWN/ETIMEDOUT: '
+                                        + (analyse(c, (g or '').strip()) or '')))
         # (c) the uncontrolled multi-OS-thread oracle run (ASan)
         exe, log = cxx_build(self.id, ['harness/C08/mt_oracle.cpp'], asan=True, libphoton=True, out=os.path.join(BUILD, 'bin', 'C08_mt'))
         if not exe:
